@@ -125,6 +125,9 @@ func c14NewEvents(kind string, n int, fc ftdc.Collector) events.Collector {
 		return events.NewRandomSamplingCollector(fc, true, 101)
 	case "samp@ivalmax":
 		return events.NewIntervalCollector(fc, 1000*time.Hour)
+	case "cum@sync", "samp@sync", "pass@sync":
+		// the locking wrapper forwards every call unchanged
+		return events.NewSynchronizedCollector(c14NewEvents(strings.TrimSuffix(kind, "@sync"), n, fc))
 	case "cum":
 		return events.NewBasicCollector(fc)
 	case "samp":
@@ -322,6 +325,8 @@ func (r *rng) c14Case() c14case {
 		c.kind, c.n = "cum@rand101", 1
 	case 2:
 		c.kind, c.n = "samp@ivalmax", 1<<62
+	case 3, 4:
+		c.kind += "@sync"
 	}
 	c.chunk = 1 + r.intn(6)
 	if strings.HasPrefix(c.under, "base") {
